@@ -77,7 +77,7 @@ type World struct {
 func key(id string, ver int) string { return fmt.Sprintf("%s#%d", id, ver) }
 
 func NewWorld(cfg *Config) *World {
-	b, err := eventlogger.NewBroker()
+	b, err := hn.NewBroker()
 	if err != nil {
 		panic(err)
 	}
